@@ -822,7 +822,13 @@ func (g *gen) include(depth int) TNode {
 
 // genCase builds one render case from a config.
 func genCase(r *Run, cfg GenCfg) (*RCase, []TNode) {
-	g := &gen{r: r, cfg: cfg, env: genEnv(r)}
+	return genCaseEnv(r, cfg, genEnv(r))
+}
+
+// genCaseEnv builds a render case over GIVEN data (several templates of one session share their data: the
+// literals and operand pairings a template is generated with are chosen for the values it will see).
+func genCaseEnv(r *Run, cfg GenCfg, env *Env) (*RCase, []TNode) {
+	g := &gen{r: r, cfg: cfg, env: env}
 	body := g.block(0)
 	c := &RCase{}
 	for _, t := range g.incl {
